@@ -1,5 +1,6 @@
 (* driver for C05 (and C07 schedule part): same observation format as harness/src/tsx_client.rs *)
-let cls_of_code c = if c < 200 then Prov else if c < 300 then Succ else Fail
+(* 1xx provisional, 2xx success, everything else (3xx-6xx and extension codes outside 100..699) ends the transaction like a failure *)
+let cls_of_code c = if c >= 100 && c < 200 then Prov else if c >= 200 && c < 300 then Succ else Fail
 let cls_letter = function Prov -> "P" | Succ -> "S" | Fail -> "F"
 
 let show_out horizon o =
